@@ -205,6 +205,10 @@ def gen_case(seed, idx):
                 fe["take_only"] = sorted(rng.sample(types, rng.randint(1, len(types))))
             elif r < 0.7:
                 fe["exclude"] = sorted(rng.sample(types, rng.randint(1, max(1, len(types) // 2))))
+            elif r < 0.85:
+                # a whitelist narrowed by a blacklist: a type named in both is NOT taken
+                fe["take_only"] = sorted(rng.sample(types, rng.randint(1, len(types))))
+                fe["exclude"] = sorted(rng.sample(fe["take_only"], rng.randint(1, len(fe["take_only"]))))
         fes.append(fe)
     if stratum == "multi_sibling":
         fes[0]["stored"] = sorted(set(fes[0]["stored"]) - {"ma"} | {"mb"})
